@@ -181,8 +181,17 @@ def judge_lib(r, d):
             if why:
                 failing.update(names)
                 miss = tail_missing(g["obs"], d.get("base_cut", {}).get(cfg))
-                per_group.append((why, names, g["obs"], miss))
-    for why, names, obs, miss in per_group:
+                # is it exactly the known deviation (mark removed, rest decoded as the label says)?
+                alt = False
+                if r.get("altdec") and cfg in ("plain", "pass"):
+                    alt = stream_mismatch(g["obs"], r["altref"] if cfg == "plain" else r["altrefp"], r["altdec"]) is None
+                per_group.append((why, names, g["obs"], miss, alt, cfg))
+    # the multi-line groups have no model reference of their own (they are compared with a real run on the transcoding):
+    # they count as the known deviation when the line-oriented groups of the same scenario show exactly it
+    any_alt = any(x[4] for x in per_group if x[5] != "multi")
+    none_other = all(x[4] for x in per_group if x[5] != "multi")
+    per_group = [(w, n, o, m, (a if c != "multi" else (any_alt and none_other))) for (w, n, o, m, a, c) in per_group]
+    for why, names, obs, miss, alt in per_group:
         v = VBYNAME[names[0]]
         if BASELINE in failing:
             clause = clause_of(r)
@@ -193,7 +202,9 @@ def judge_lib(r, d):
             v = next(VBYNAME[n] for n in names if VBYNAME[n]["strat"] != "reader")
         sig = {"clause": clause, "encoding": r["scn"]["label"], "bom": r["scn"]["bom"], "strategy": v["strat"],
                "chunking": v["chunk"], "level": "lib", "effective": r["eff"], "malformed": r["mal"] > 0,
-               "eof_flush": r["flush"], "missing": miss}
+               "eof_flush": r["flush"], "missing": miss, "decoded_by_label_after_mark": alt,
+               # a UTF-8 text of odd length read as UTF-16 also ends in half a code unit (the flush finding): two deviations at once
+               "rest_odd": r["scn"]["bom"] == "u8" and r["scn"]["label"] in ("utf-16le", "utf-16be") and (len(r["bytes"]) - 3) % 2 == 1}
         bad.append((sig, why, names, obs))
     return bad
 
@@ -379,7 +390,11 @@ def rg_level(chk, rep, recs, limit):
                 sig = {"clause": clause_of(r), "encoding": label, "bom": r["scn"]["bom"],
                        "strategy": "rg-mmap" if mm == "--mmap" else "rg", "chunking": "max", "level": "rg",
                        "effective": r["eff"], "malformed": r["mal"] > 0, "eof_flush": r["flush"],
-                       "missing": rg_tail_missing(got, exp, r["dec"])}
+                       "missing": rg_tail_missing(got, exp, r["dec"]), "decoded_by_label_after_mark": False}
+                if r.get("altdec"):
+                    altexp = [(e["ln"], e["off"], r["altdec"][e["off"]:e["off"] + e["len"]]) for e in r["altref"] if e["k"] == "match"]
+                    sig["decoded_by_label_after_mark"] = got == [(a, o, list(x)) for a, o, x in altexp]
+                sig["rest_odd"] = r["scn"]["bom"] == "u8" and label in ("utf-16le", "utf-16be") and (len(r["bytes"]) - 3) % 2 == 1
                 rep.report(sig, {"level": "rg", "why": "rg output differs from the search of the UTF-8 transcoding",
                                  "scn": r["scn"], "bytes": r["bytes"], "dec": r["dec"], "label": label, "mmap": mm,
                                  "expected": exp, "observed": got})
